@@ -150,7 +150,12 @@ func (b *BaseStore) InitBaseStore(ipfs coreiface.CoreAPI, identity *identityprov
 
 	if options.EventBus == nil {
 		options.EventBus = eventbus.NewBus()
-	} else if err := b.SetBus(options.EventBus); err != nil {
+	}
+
+	// the legacy channel API (Subscribe, GlobalChannel) listens on the bus of
+	// the embedded emitter: it has to be the bus the store emits on, also when
+	// that bus is the default one
+	if err := b.SetBus(options.EventBus); err != nil {
 		return fmt.Errorf("unable set event bus: %w", err)
 	}
 	b.eventBus = options.EventBus
